@@ -9,7 +9,7 @@ folding invariant of the inner-product argument and the `s`-vector lemma).
 -/
 set_option linter.unusedSectionVars false
 namespace Zk.Range
-open Zk
+open Zk Zk.Props.C04
 
 section
 variable {F G T : Type} [Field F] [AddCommGroup G] [Module F G] [DecidableEq G]
@@ -19,53 +19,6 @@ variable {F G T : Type} [Field F] [AddCommGroup G] [Module F G] [DecidableEq G]
 def mkProof (A S T1 T2 : G) (tx txb eb : F) (Ls Rs : List G) (a b : F) : Proof F G :=
   ⟨PtCodec.enc A, PtCodec.enc S, PtCodec.enc T1, PtCodec.enc T2, A, S, T1, T2, tx, txb, eb,
    ⟨Ls.map PtCodec.enc, Rs.map PtCodec.enc, Ls, Rs, a, b⟩⟩
-
-theorem challenges_some (t : T) (nm : ℕ) (pf : Proof F G) (c : Challenges F) (h : challenges t nm pf = some c) :
-    let t := TranscriptOps.append t b!"dom-sep" b!"range-proof"
-    let t := appendU64 t b!"n" nm
-    let t := TranscriptOps.append t b!"A" pf.aB
-    let t := TranscriptOps.append t b!"S" pf.sB
-    let yt := challengeScalar (Sc := F) t b!"y"
-    let zt := challengeScalar (Sc := F) yt.2 b!"z"
-    let t := TranscriptOps.append zt.2 b!"T_1" pf.t1B
-    let t := TranscriptOps.append t b!"T_2" pf.t2B
-    let xt := challengeScalar (Sc := F) t b!"x"
-    let t := appendScalar xt.2 b!"t_x" pf.tx
-    let t := appendScalar t b!"t_x_blinding" pf.txBlinding
-    let t := appendScalar t b!"e_blinding" pf.eBlinding
-    let wt := challengeScalar (Sc := F) t b!"w"
-    let ct := challengeScalar (Sc := F) wt.2 b!"c"
-    ∃ uSq uInvSq s t' d, verificationScalars nm ct.2 pf.ipp = some (uSq, uInvSq, s, t') ∧
-      c = ⟨yt.1, zt.1, xt.1, wt.1, d, uSq, uInvSq, s⟩ := by
-  unfold challenges at h
-  simp only at h ⊢
-  split at h
-  · cases h
-  · rename_i uSq uInvSq s t' heq
-    exact ⟨uSq, uInvSq, s, t', _, heq, (Option.some.inj h).symm⟩
-
-theorem verificationScalars_some (n : ℕ) (t : T) (ipp : Ipp F G) (uSq uInvSq s : List F) (t' : T)
-    (h : verificationScalars n t ipp = some (uSq, uInvSq, s, t')) :
-    let us := (ippChallenges (Sc := F)
-      (appendU64 (TranscriptOps.append t b!"dom-sep" b!"inner-product") b!"n" n) ipp.lB ipp.rB).1
-    uSq = us.map (fun u => u * u) ∧ uInvSq = us.map (fun u => u⁻¹ * u⁻¹) ∧
-    s = sVector ((us.foldl (· * ·) 1)⁻¹) (us.map fun u => u * u) ∧
-    n = 2 ^ ipp.lB.length ∧ ipp.lB.length = ipp.rB.length := by
-  unfold verificationScalars at h
-  simp only at h
-  split at h
-  · cases h
-  rename_i hlr
-  split at h
-  · cases h
-  split at h
-  · cases h
-  rename_i hn
-  split at h
-  · cases h
-  simp only [Option.some.injEq, Prod.mk.injEq] at h
-  obtain ⟨rfl, rfl, rfl, _⟩ := h
-  exact ⟨rfl, rfl, rfl, by simpa using hn, by simpa using hlr⟩
 
 theorem Tamper_none_fields :
     (Tamper.none : Tamper F G).oA = 0 ∧ (Tamper.none : Tamper F G).oS = 0 ∧ (Tamper.none : Tamper F G).oT1 = 0 ∧
